@@ -25,6 +25,15 @@ type MethodCase struct {
 	// SvcPath/SvcPaths: HTTP base path(s) of the service (only with Own)
 	SvcPath  string
 	SvcPaths []string
+	// service-level and API-level HTTP mapping elements the method relies on (families_httpval.go)
+	SvcParams, SvcHeaders, SvcCookies []Map
+	SvcRules                          []MapRule
+	APIParams, APIHeaders, APICookies []Map
+	APIRules                          []MapRule
+	APIPath                           string
+	// SvcKey: consecutive cases with the same non-empty SvcKey share one service, which holds
+	// nothing else; DesignKey: the same for designs
+	SvcKey, DesignKey string
 }
 
 // TypeMenu is the L1 type alphabet: name -> (type, needed definitions).
@@ -296,12 +305,18 @@ func Pack(cases []MethodCase, perService, perDesign int, family string) []*Spec 
 	var svc *Service
 	prevOwn := false
 	prevGroup := ""
+	prevSvcKey, prevDesignKey := "", ""
 	for _, mc := range cases {
 		sameGroup := mc.Group != "" && mc.Group == prevGroup
 		newGroup := mc.Group != prevGroup
 		prevGroup = mc.Group
-		if svc == nil || len(svc.Methods) >= perService || mc.Own || prevOwn || mc.Group != "" || newGroup {
-			if !sameGroup && (cur == nil || len(cur.Services) >= perDesign || mc.Own || prevOwn || newGroup) {
+		sameSvcKey := mc.SvcKey != "" && mc.SvcKey == prevSvcKey
+		sameDesignKey := mc.DesignKey != "" && mc.DesignKey == prevDesignKey
+		newKey := mc.SvcKey != prevSvcKey || mc.DesignKey != prevDesignKey
+		newDesignKey := mc.DesignKey != prevDesignKey
+		prevSvcKey, prevDesignKey = mc.SvcKey, mc.DesignKey
+		if !sameSvcKey && (svc == nil || len(svc.Methods) >= perService || mc.Own || prevOwn || mc.Group != "" || newGroup || newKey) {
+			if !sameGroup && !sameDesignKey && (cur == nil || len(cur.Services) >= perDesign || mc.Own || prevOwn || newGroup || newDesignKey) {
 				cur = &Spec{Family: family}
 				out = append(out, cur)
 			}
@@ -346,6 +361,15 @@ func Pack(cases []MethodCase, perService, perDesign int, family string) []*Spec 
 		}
 		if len(mc.SvcPaths) > 0 {
 			svc.Paths = mc.SvcPaths
+		}
+		if len(mc.SvcParams)+len(mc.SvcHeaders)+len(mc.SvcCookies)+len(mc.SvcRules) > 0 {
+			svc.Params, svc.Headers, svc.Cookies, svc.Rules = mc.SvcParams, mc.SvcHeaders, mc.SvcCookies, mc.SvcRules
+		}
+		if len(mc.APIParams)+len(mc.APIHeaders)+len(mc.APICookies)+len(mc.APIRules) > 0 {
+			cur.APIParams, cur.APIHeaders, cur.APICookies, cur.APIRules = mc.APIParams, mc.APIHeaders, mc.APICookies, mc.APIRules
+		}
+		if mc.APIPath != "" {
+			cur.APIPath = mc.APIPath
 		}
 		if mc.SvcSecurity != nil {
 			svc.Security = mc.SvcSecurity
